@@ -106,6 +106,7 @@ RULE["C19"] += "; 30 % of the set_last_datetime checks use a date WITH a tzinfo 
 
 for _p in ("C01", "C02", "C03", "C04", "C06", "C07", "C13", "C14", "C12"):
     RULE[_p] += "; 6 % (C12: 8 %) of the cases with numbers off every decimal grid (work x 1/3, 2/3, 1/7, pi/4, 10/7; skills x 1/3, 2/3, 7/9; rates x 1/3, 1/7; component sizes = capacity/k + delta, delta < 0.001)"
+RULE["C16"] += "; 12 % of the cases (stage other than never) save a state in which the calculated times of one task are edge values (lst = lft = -1.0, all four -1.0, 0.0, ints)"
 RULE["C15"] += "; thorough: pause points of long / large models bounded in logical work units (first half, last two, rest sampled)"
 RULE["C17"] += "; thorough: injected runs of large models bounded in logical work units"
 RULE["C20"] += "; every 12th case uses a sub-project that runs for 257 and more steps"
